@@ -7,6 +7,8 @@ workbook OF ITS TRANSLATION (+) its own overrides, whatever is translated, writt
 
 MC   : MC_E2PW (ExecutorKeepsItsWorkbook, PipelineLeavesOverridesAlone, TextStableUntilAnnounced, TextIsCurrentAfterAnnounce,
        FileEqualsText, VersionsDiffer); E2PWImpl variant "fixed" refines E2PW, variants "module_cache", "mtime_cache", "write_skips" must NOT.
+GEN  : every history of 5 (thorough: 6) pipeline steps that replaces the file and makes an executor (Gen_E2PW), replayed on the real Parser,
+       a real file and real executors, compared after every step.
 TRACE: random histories of replace / announce / text / write / new (file | text) / drop / set / get / sizes on the real Parser and real
        executors, judged by Trace_E2PW. The version a text or a class file was translated from is observed through the marker cell
        S1!A1 of a throw-away instance (3 = version 1, 7 = version 2).
@@ -167,6 +169,94 @@ def trace(run):
         run.traces_validated += 1
 
 
+# ------------------------------------------------------------------ direction A
+def replay(wbj, scratch, tag, h, rng):
+    """one Gen_E2PW history on the real Parser / file / executors. -> (ok, clause)"""
+    from harness.props import c04
+    pos = wbj['pos']
+    xlsx = os.path.join(scratch, f'e2pwg_{tag}.xlsx')
+    py = os.path.join(scratch, f'e2pwg_{tag}_gen.py')
+    for f in (xlsx, py):
+        if os.path.exists(f):
+            os.remove(f)
+    repo.write_xlsx(xlsx, xc.sheets_from_spec(wbj, BASE[1]))
+    parser = repo.Parser().set_excel_file_path(xlsx)
+    exs, text = {}, None
+    for n, step in enumerate(h):
+        a = step['a']
+        op = a['op']
+        where = f"step {n + 1} ({op}{' ' + str(a['v']) if op == 'replace' else ''}) of {[s['a']['op'] + (str(s['a']['v']) if s['a']['op'] == 'replace' else '') for s in h]}"
+        try:
+            if op == 'replace':
+                repo.write_xlsx(xlsx, xc.sheets_from_spec(wbj, BASE[a['v']]))
+            elif op == 'announce':
+                parser.set_excel_file_path(xlsx)
+            elif op == 'text':
+                text = parser.get_translation()
+                got = version_of_text(text, pos)
+                if got != step['text']:
+                    return False, f'{where}: the returned text is the translation of version {got}, the specification says version {step["text"]}'
+            elif op == 'write':
+                parser.write_translation(py)
+                text = parser.get_translation()
+                got, gotf = version_of_text(text, pos), version_of_file(py, pos)
+                if got != step['text'] or gotf != step['written'] or open(py, encoding='utf-8').read() != text:
+                    return False, f'{where}: text of version {got}, class file of version {gotf} (equal to the text: {open(py, encoding="utf-8").read() == text}); the specification says {step["text"]} / {step["written"]}'
+            elif op == 'newfile':
+                exs[a['x']] = repo.Executor().set_executed_class(class_file=py)
+            elif op == 'newtext':
+                exs[a['x']] = repo.Executor().set_executed_class(class_object=repo.load_class(text))
+            elif op == 'drop':
+                del exs[a['x']]
+            elif op == 'set':
+                exs[a['x']].set_cells([xc.mk_cell(pos[a['c']], a['v'], rng.randint(0, 3))])
+        except repo.E2PyclException as e:
+            return False, f'{where}: raises {type(e).__name__}: {e}'[:300]
+        for i, e in enumerate(step['after']):
+            if not e['live']:
+                continue
+            ex = exs[i + 1]
+            for item in e['snap']['vals']:
+                got = xc.q_get(ex, pos[item['c']], rng.randint(0, 3))
+                if not c04.same_small(got, item['v']):
+                    return False, f"{where}: executor {i + 1}: get {item['c']} = {got}, (workbook of its translation (+) its overrides) gives {item['v']}"
+            z = xc.q_sizes(ex)
+            if z != e['snap']['sizes']:
+                return False, f"{where}: executor {i + 1}: sizes {z}, the specification gives {e['snap']['sizes']}"
+    return True, ''
+
+
+def _gjob(args):
+    h, seed = args
+    wbj, scratch = _ARGS
+    try:
+        return replay(wbj, scratch, f'{os.getpid()}', h, random.Random(seed))
+    except Exception as e:  # noqa
+        import traceback
+        return None, f'harness: {type(e).__name__}: {e} {traceback.format_exc()[-300:]}'
+
+
+def gen(run):
+    global _ARGS
+    wbj = xc.spec_workbook(run)
+    _ARGS = (wbj, run.scratch)
+    depth = 5 if run.quick else 6
+    r = run.tlc('Gen_E2PW', ['INIT GInit', 'NEXT GNext', f'CONSTANTS Execs = {{1,2}} WCoords = {{"S2C3"}} Values = {{4}} Depth = {depth}', 'CHECK_DEADLOCK FALSE'],
+                workers=4, timeout=3000, tag='Gen_E2PW', heap='6g')
+    hists = [rec['h'] for rec in r.records]
+    if not hists:
+        raise core.MachineryError('Gen_E2PW produced no history')
+    run.exhaustive[f'all pipeline histories of {depth} steps (replace / announce / text / write / new from file / new from text / drop / set) that replace the file and make an executor'] = True
+    res = core.pmap(_gjob, [(h, run.seed * 7927 + i) for i, h in enumerate(hists)])
+    for h, (ok, clause) in zip(hists, res):
+        if ok is None:
+            raise core.MachineryError(clause)
+        case = {'in': {'pipeline': [s['a'] for s in h]}, 'kind': 'e2pw_history', 'obs': clause or 'every step as the specification says'}
+        run.judge(case, ok, clause=clause, part='e2pw_gen', nontrivial=True)
+        run.traces_validated += 1
+
+
 def check(run):
     mc(run)
+    gen(run)
     trace(run)
